@@ -54,7 +54,10 @@ Print Assumptions C16_compile_dot_assign_unbalanced_before_fix.
    literals `[e1 e2 …]` (nested), map literals `{k1:e1 k2:e2 …}` (no key twice:
    len(Pairs) = len(Order); the value is the list of pairs in source order, as
    OpMap rebuilds it), global variables, unary - and !, the binary
-   operators on numbers and strings, ==/!= and index reads `a[i]` on strings
+   operators on numbers and strings, array concatenation `a + b` and
+   repetition `a * n` (a bad count is an error: undefined), ==/!= as
+   value.Equals (arrays and maps structurally), slices `x[a:b]` of strings
+   and arrays (missing bounds are OpNone) and index reads `a[i]` on strings
    (by code point), arrays (negative indices count from the end) and maps
    (`m[k]` with a string key; an index error or a missing key leaves eval_expr
    undefined)  (efrag), compiled from any compiler state: wherever the emitted
@@ -115,7 +118,7 @@ Print Assumptions C16_compile_correct_straightline.
    `for x := range iterable` — and `for range iterable` without loop variable,
    anywhere — over the elements of an array, the characters of a string or the
    keys of a map, counted like the VM with a number starting at 0) and `break` (inside a loop only: nb_stmt), arbitrarily nested, all expressions in efrag
-   (_partial: no loop variables inside blocks, no block-local declarations, no slices, no element stores `a[i] = e` / `m[k] = e`).  The boolean of a result of exec_l says that a break is
+   (_partial: no loop variables inside blocks, no block-local declarations, no element stores `a[i] = e` / `m[k] = e`).  The boolean of a result of exec_l says that a break is
    under way; the innermost loop ends it.  The VM keeps the state of a range
    loop (index, step, stop) on the operand stack: the simulation carries the
    stack `base` below the statement, and OpDrop removes the state at the exit
@@ -153,7 +156,7 @@ Print Assumptions C16_compile_correct_ctl_partial.
    for (the compiler makes it a LOCAL of the block's scope and gives it a slot
    of the VM's locals area; slots are reused once a block is closed) —, and
    assignments `x = e` go to whatever the name resolves to.  Expressions are
-   in efrag and read globals and locals (_partial: no slices, no element
+   in efrag and read globals and locals (_partial: no element
    stores `a[i] = e` / `m[k] = e` — Vm.v has value semantics for arrays and
    maps, its OpSetIndex only checks —, no function calls, hence no call frames).  The semantics lx_l
    (CompileSem.v) is the fuel-indexed big-step semantics of before over an
@@ -232,8 +235,8 @@ Print Assumptions C16_compile_wf_large_before_fix.
    LOCAL of the block's scope —, assignments `x = e` to globals and locals,
    if / else-if / else chains, while, break, `for range …` without a loop
    variable — arbitrarily nested, with all expressions in the expression
-   fragment efrag (reads of globals and locals, array and map literals, index reads;
-   _partial: no slices / element stores, no function calls).  For every such program: if the compiler
+   fragment efrag (reads of globals and locals, array and map literals, index reads, slices;
+   _partial: no element stores, no function calls).  For every such program: if the compiler
    succeeds and leaves no pending break (a break outside a loop, which the
    parser rejects), its output satisfies WF with LocalCount = the
    nestedMaxIndex of the compiler's root table:
@@ -561,6 +564,36 @@ Example C16_ex_map_defined :
   match compile ex_map with
   | COk st => match vm_run 4000 (program_of (bytecode_of st)) (vm_init (program_of (bytecode_of st))) with
               | FHalted s => nth_error (globals s) 1 = Some (VNum (float_of_Z 7)) /\ nth_error (globals s) 2 = Some (VStr [97%N; 98%N]) /\ ostack s = []
+              | _ => False
+              end
+  | CErr _ => False
+  end.
+Proof. vm_compute. repeat split; try reflexivity. discriminate. Qed.
+
+(* a := [1 2 3]; b := a[1:] + [9] * 2; s := "hello"[1:3]; q := a[:2] == [1 2]; r := {x:a} == {x:[1 2 3]}
+   -- b = [2 3 9 9], s = "el", q = true, r = true (slices, concatenation, repetition, structural ==) *)
+Definition ex_slice : slist :=
+  let num k := ENum (float_of_Z k) in
+  let arr3 a b c := EArr (ECons a (ECons b (ECons c ENil))) in
+  SCons (SDecl (s_ "a") (arr3 (num 1%Z) (num 2%Z) (num 3%Z)))
+ (SCons (SDecl (s_ "b") (EBin BPlus TArr TArr (ESlice (EVar (s_ "a")) (OSome (num 1%Z)) ONoneE)
+                                             (EBin BStar TArr TNum (EArr (ECons (num 9%Z) ENil)) (num 2%Z))))
+ (SCons (SDecl (s_ "s") (ESlice (EStr (s_ "hello")) (OSome (num 1%Z)) (OSome (num 3%Z))))
+ (SCons (SDecl (s_ "q") (EBin BEq TArr TArr (ESlice (EVar (s_ "a")) ONoneE (OSome (num 2%Z))) (EArr (ECons (num 1%Z) (ECons (num 2%Z) ENil)))))
+ (SCons (SDecl (s_ "r") (EBin BEq TMap TMap (EMap (PCons (s_ "x") (EVar (s_ "a")) PNil) 1%Z)
+                                           (EMap (PCons (s_ "x") (arr3 (num 1%Z) (num 2%Z) (num 3%Z)) PNil) 1%Z))) SNil)))).
+
+Example C16_ex_slice_defined :
+  psfrag ex_slice = true /\ lpfrag ex_slice = true /\ (ldepth ex_slice <= Gen.Opcodes.StackSize)%N /\
+  match exec_l 40 ex_slice (fun _ => None) with
+  | Some (env, false) => env (s_ "b") = Some (VArr [VNum (float_of_Z 2); VNum (float_of_Z 3); VNum (float_of_Z 9); VNum (float_of_Z 9)]) /\
+                         env (s_ "s") = Some (VStr [101%N; 108%N]) /\ env (s_ "q") = Some (VBool true) /\ env (s_ "r") = Some (VBool true)
+  | _ => False
+  end /\
+  match compile ex_slice with
+  | COk st => match vm_run 4000 (program_of (bytecode_of st)) (vm_init (program_of (bytecode_of st))) with
+              | FHalted s => nth_error (globals s) 2 = Some (VStr [101%N; 108%N]) /\ nth_error (globals s) 3 = Some (VBool true) /\
+                             nth_error (globals s) 4 = Some (VBool true) /\ ostack s = []
               | _ => False
               end
   | CErr _ => False
